@@ -152,6 +152,13 @@ def gen_command(rng, m, cfg):
             asp = rng.choice(a['aspects'])[0]
             fn = 'bidib_switch_point' if kind == 'points_dcc' else 'bidib_set_signal'
             return call(fn, S_(a['id']), S_(asp)), (lambda mm, i=a['id'], x=asp: mm.set_dcc_state_id(i, x))
+    if r < 0.9:
+        # the user's own low-level DCC accessory command: every data / time byte (coil, "output controls timing", time unit, switch time)
+        accs = [(a, b) for b in conn for kind in ('points_dcc', 'signals_dcc') for a in (b.get(kind) or [])]
+        if accs:
+            a, b = rng.choice(accs)
+            ad = m.addr[b['id']]
+            return call('bidib_send_cs_accessory', ad[0], ad[1], ad[2], a['addr'][1], a['addr'][0], 0, rb(rng), rb(rng), 0), None
     if cfg['trains'] and tos:
         t = rng.choice(cfg['trains'])
         to = rng.choice(tos)
